@@ -96,7 +96,9 @@ Combine(R, E, s) ==
      THEN [ok |-> FALSE, why |-> "same-value-two-instances", unspec |-> TRUE, s |-> s]
      ELSE IF \E k \in touched : Conf(k)
      THEN [ok |-> FALSE, why |-> "conflict", unspec |-> FALSE, s |-> s]
-     ELSE [ok |-> TRUE, why |-> "ok", unspec |-> \E k \in touched : StaticZone(k),
+     \* a value beyond the model's number range (UPValues: arithmetic on operands above 32767 yields UNDEF) makes
+     \* the step unspecified, never "assigns UNDEF"
+     ELSE [ok |-> TRUE, why |-> "ok", unspec |-> \E k \in touched : (StaticZone(k) \/ IsU(New(k))),
            s |-> [k \in DOMAIN s |-> IF k \in touched THEN New(k) ELSE s[k]]]
 
 Step(R, ga, s) ==
